@@ -267,7 +267,13 @@ func (e *treeEngine) run(ctx *simrt.Ctx) *simrt.Violation {
 		return ctx.Violate("not-heaviest", "best-chain-tip", "after all deliveries the best chain tip is %x (height %d) but the unique heaviest branch tip is block id %d %x (height %d, td %s)",
 			last, sut.Chain.GetBlockHeight(), best.ID, best.Hash, best.Height, best.TD)
 	}
-	// twin: a fresh node that received only that branch, in order
+	return twinCompare(ctx, w, sut, best, delivered, recseq, maxH, uid, e.prop == "C14")
+}
+
+// twinCompare boots a fresh node, gives it only the chain ending at best, in
+// order, and compares everything observable (and, with dumps, every key of the
+// blockchain database outside the by-hash block storage) with the node under test.
+func twinCompare(ctx *simrt.Ctx, w *World, sut *simnode.Node, best *Built, delivered map[int]bool, recseq bool, maxH int64, uid string, dumps bool) *simrt.Violation {
 	twin := simnode.New(simnode.Opts{ID: "twin-" + uid, StubMempool: true, EditToml: seqToml(recseq)})
 	defer twin.Close()
 	defer twin.Disk.Remove()
@@ -292,7 +298,7 @@ func (e *treeEngine) run(ctx *simrt.Ctx) *simrt.Violation {
 			}
 		}
 	}
-	addrs := []string{w.Addr(-1)}
+	addrs := []string{w.Addr(-1), execAddr("none"), execAddr(w.Cfg.GetCoinExec())}
 	for a := 0; a < NAccounts; a++ {
 		addrs = append(addrs, w.Addr(a))
 	}
@@ -311,6 +317,11 @@ func (e *treeEngine) run(ctx *simrt.Ctx) *simrt.Violation {
 	// the model's total difficulty agrees with the node's for the tip
 	if vs.TDs[len(vs.TDs)-1] != best.TD.String() {
 		return ctx.Violate("td-mismatch", "tip", "tip total difficulty %s, model %s", vs.TDs[len(vs.TDs)-1], best.TD)
+	}
+	if dumps {
+		if fam, detail := diffLocalDump(sut, twin); fam != "" {
+			return ctx.Violate("local-index-not-undone", fam, "blockchain database of the node that connected and disconnected blocks vs a node that never saw them: %s", detail)
+		}
 	}
 	return nil
 }
